@@ -270,6 +270,19 @@ pub enum StreamVia {
     BuildOnStream,
     BoundedOnStream(usize),
     SpawnOwningOnStream,
+    /// spawn_on_stream / the stream builder with an item type for which the harness actor does
+    /// not override `StreamHandler::finished` (the provided default runs, and logs nothing)
+    SpawnOnStreamPlainItems,
+    BuildOnStreamPlainItems,
+}
+
+/// the harness stream with its items re-typed (see `StreamVia::*PlainItems`)
+pub struct PlainStream(HStream);
+impl futures::Stream for PlainStream {
+    type Item = crate::world::PlainItem;
+    fn poll_next(mut self: std::pin::Pin<&mut Self>, cx: &mut TaskCx<'_>) -> Poll<Option<Self::Item>> {
+        std::pin::Pin::new(&mut self.0).poll_next(cx).map(|o| o.map(|i| crate::world::PlainItem(i.0)))
+    }
 }
 
 /// Spawns a stream-attached probe; `prefill` items are ready at once, `close` ends the stream
@@ -288,6 +301,8 @@ pub fn spawn_probe_on_stream(role: u8, via: StreamVia, prefill: &[u32], close: b
     match via {
         StreamVia::SpawnOnStream => OwningOrAddr::Addr(probe.spawn_on_stream(st).expect("spawn_on_stream")),
         StreamVia::SpawnOwningOnStream => OwningOrAddr::Own(probe.spawn_owning_on_stream(st).expect("spawn_owning_on_stream")),
+        StreamVia::SpawnOnStreamPlainItems => OwningOrAddr::Addr(probe.spawn_on_stream(PlainStream(st)).expect("spawn_on_stream")),
+        StreamVia::BuildOnStreamPlainItems => OwningOrAddr::Own(hannibal::build(probe).on_stream(PlainStream(st)).spawn_owning()),
         StreamVia::BuildOnStream => {
             let mut b = hannibal::build(probe);
             if let Some((t, fail)) = timeout {
